@@ -20,19 +20,21 @@ import weakref
 from .seqlib import exc_name
 
 NAMES = ["value", "mate", "child", "kids", "byname", "group", "trait_added", "trait_modified",
-         "extra", "xchild", "items", "nosuch"]
+         "extra", "xchild", "items", "nosuch", "ichild", "nchild"]
 NONE_ID = 99
 INT_FIELDS = ("value", "extra")
 
 _INDEX = {}      # id(pool object) -> pool index (also its hash)
 _DEFAULT = {}    # id(pool object) -> weakref of the object its `child` default returns
+_EQ = {}         # id(pool object) -> `==` class (a == b iff same class; also the hash)
+CMP_MODE = {"ichild": "identity", "nchild": "none"}     # every other trait: equality
 _NODE = []
 
 
 def node_class():
     if _NODE:
         return _NODE[0]
-    from traits.api import HasTraits, Int, Instance, List, Dict, Set, Str
+    from traits.api import HasTraits, Int, Instance, List, Dict, Set, Str, ComparisonMode
 
     class Node(HasTraits):
         value = Int()
@@ -41,14 +43,28 @@ def node_class():
         kids = List(Instance(HasTraits))
         byname = Dict(Str, Instance(HasTraits))
         group = Set(Instance(HasTraits))
+        ichild = Instance(HasTraits, comparison_mode=ComparisonMode.identity)
+        nchild = Instance(HasTraits, comparison_mode=ComparisonMode.none)
 
         def _child_default(self):
             r = _DEFAULT.get(id(self))
             return None if r is None else r()
 
+        # value semantics per case: two pool objects are `==` iff they are in the same
+        # class of the case header (by default every object is alone in its class, i.e.
+        # `==` is identity).  Small distinct hashes: a set of pool objects in distinct
+        # classes iterates in pool order.
+        def __eq__(self, other):
+            if other is self:
+                return True
+            a, b = _EQ.get(id(self)), _EQ.get(id(other))
+            return a is not None and a == b
+
+        def __ne__(self, other):
+            return not self.__eq__(other)
+
         def __hash__(self):
-            # small distinct hashes: a set of pool objects iterates in pool order
-            return _INDEX.get(id(self), 7)
+            return _EQ.get(id(self), 7)
 
     _NODE.append(Node)
     return Node
@@ -181,9 +197,10 @@ class Recorder:
 
 
 class World:
-    def __init__(self, n, dflts):
+    def __init__(self, n, dflts, classes=None):
         _INDEX.clear()
         _DEFAULT.clear()
+        _EQ.clear()
         Node = node_class()
         self.n = n
         self.pool = [Node() for _ in range(n)]
@@ -191,6 +208,7 @@ class World:
         self.ids = {}           # id(real object) -> identity
         for i, o in enumerate(self.pool):
             _INDEX[id(o)] = i
+            _EQ[id(o)] = i if classes is None else classes[i]
             self.objs[i] = o
             self.ids[id(o)] = i
         for i, d in enumerate(dflts):
@@ -483,7 +501,10 @@ class Runner:
 
     def __init__(self, case):
         _, n, dflts, ops = case.lstrip("#").split("|")
-        self.w = World(int(n), [parse_ref(x.strip()) for x in dflts.split(",")])
+        ents = [x.strip() for x in dflts.split(",")]
+        classes = [int(e.split("~")[1]) if "~" in e else i for i, e in enumerate(ents)]
+        self.w = World(int(n), [parse_ref(e.split("~")[0]) for e in ents], classes)
+        self.eq_case = len(set(classes)) < len(classes)
         self.ops = [o.strip() for o in ops.split(";") if o.strip()]
         self.ledger = collections.Counter()    # (hid, root, graph) -> active registrations
         self.hits08 = []
@@ -492,6 +513,8 @@ class Runner:
         self.selfreach = False       # some mutation so far violated NoSelfReach
         self.tainted = False         # a non-atomic failure left the hooks outside every ledger
         self.shadow_default = False  # an unhooked default was "removed" on first assignment
+        if self.eq_case:
+            self.tags.add("eq-classes")
 
     # ------------------------------------------------------------------ ops
     @staticmethod
@@ -1050,8 +1073,14 @@ class Runner:
                         p = op.split()
                         o = w.pool[int(p[1])]
                         new = o.__dict__.get(p[2])
+                        mode = CMP_MODE.get(p[2], "equality")
                         try:
-                            self.set_changed = not (self.old_value is new or self.old_value == new)
+                            if mode == "none":
+                                self.set_changed = True                      # every assignment is reported
+                            elif mode == "identity":
+                                self.set_changed = self.old_value is not new
+                            else:
+                                self.set_changed = not (self.old_value is new or self.old_value == new)
                         except Exception:
                             self.set_changed = True
                     if pre is not None and self.check_reach():
@@ -1121,8 +1150,10 @@ def gen_link(rng):
     n = rng.random() < 0.7        # '.' vs ':'
     n2 = rng.random() < 0.7
     r = rng.random()
-    if r < 0.28:
+    if r < 0.24:
         return t("child", n)
+    if r < 0.28:
+        return t(rng.choice(["ichild", "nchild"]), n)
     if r < 0.40:
         return t("mate", n)
     if r < 0.55:
@@ -1152,7 +1183,7 @@ def gen_leaf(rng):
     if r < 0.75:
         return ("meta", n)
     if r < 0.83:
-        return t(rng.choice(["child", "mate"]), n)
+        return t(rng.choice(["child", "mate", "ichild", "nchild"]), n)
     if r < 0.90:
         return t(rng.choice(["kids", "byname", "group"]), n)
     return seq(t("kids", n), ("li", rng.random() < 0.8, False)) if rng.random() < 0.6 else \
@@ -1208,8 +1239,9 @@ def gen_bad_expr(rng):
 class Gen:
     """Random history with a shadow of the heap shape (which containers exist)."""
 
-    def __init__(self, rng, n=None):
+    def __init__(self, rng, n=None, no_sets=False):
         self.rng = rng
+        self.no_sets = no_sets   # value-equal objects in the pool: sets (hash/eq based) stay out
         self.n = n or rng.choice([3, 3, 4, 5])
         self.next_id = 100
         self.conts = {}          # identity -> 'l' | 'd' | 's'
@@ -1238,12 +1270,12 @@ class Gen:
         x = r.random()
         o = self.obj()
         if x < 0.22:
-            f = r.choice(["child", "child", "mate"])
+            f = r.choice(["child", "child", "mate", "ichild", "nchild"])
             v = "N" if r.random() < 0.15 else str(self.obj())
             return "set %d %s %s" % (o, f, v)
         if x < 0.34:
             c = self.fresh()
-            kind = r.choice(["l", "l", "d", "s"])
+            kind = r.choice(["l", "l", "d", "d"] if self.no_sets else ["l", "l", "d", "s"])
             f = {"l": "kids", "d": "byname", "s": "group"}[kind]
             self.conts[c] = kind
             self.attached[(o, f)] = c
@@ -1254,7 +1286,8 @@ class Gen:
                 return "setd %d byname %d %s" % (o, c, show_kvs([(k, self.item()) for k in ks]))
             return "sets %d group %d %s" % (o, c, show_ids(sorted(set(i for i in self.items() if i != NONE_ID))))
         if x < 0.40:
-            f = r.choice(["kids", "byname", "group", "child", "mate", "value"])
+            f = r.choice(["kids", "byname", "child", "mate", "value"] if self.no_sets else
+                         ["kids", "byname", "group", "child", "mate", "value"])
             c = self.fresh()
             kind = {"kids": "l", "byname": "d", "group": "s"}.get(f)
             if kind and (o, f) not in self.attached:
@@ -1320,6 +1353,88 @@ def header(g, dflts=None):
 
 def gen_dflts(rng, n):
     return [str(rng.randrange(n)) if rng.random() < 0.08 else "N" for _ in range(n)]
+
+
+def gen_eq_header(rng, n):
+    """Header with value semantics: two or three pool objects compare equal."""
+    cls = list(range(n))
+    k = rng.choice([2, 2, 3]) if n >= 4 else 2
+    members = rng.sample(range(n), k)
+    for m in members[1:]:
+        cls[m] = cls[members[0]]
+    return ["N~%d" % c for c in cls], members
+
+
+def expr_without_sets(rng):
+    for _ in range(50):
+        e = gen_expr(rng)
+        toks = rpn_of(e)
+        if not any(x.startswith(("si.", "t.group.")) for x in toks):
+            return e
+    return seq(t("child"), t("value"))
+
+
+def history_eq(rng, maxops=12, c09=False):
+    """Value-equal but distinct objects: as observing owners sharing a child with the
+    same handler, as dict values / list items / Instance values replaced by an equal
+    object, under traits of every comparison mode."""
+    g = Gen(rng, no_sets=True)
+    hdr, members = gen_eq_header(rng, g.n)
+    others = [i for i in range(g.n) if i not in members] or [members[-1]]
+    a, b = members[0], members[1]
+    shared = rng.choice(others)
+    r = rng.random()
+    if r < 0.35:
+        # two equal owners, one shared child, the same handler
+        e = rng.choice([seq(t("child"), t("value")), seq(t("child", False), t("value")),
+                        seq(t("child"), t("child"), t("value")), t("child")])
+        g.ops += ["set %d child %d" % (a, shared), "set %d child %d" % (b, shared)]
+        es = " ".join(rpn_of(e))
+        g.ops += ["obs 0 %d %s" % (a, es), "obs 0 %d %s" % (b, es)]
+        while len(g.ops) < rng.randint(5, maxops):
+            x = rng.random()
+            if x < 0.25 and c09:
+                g.ops.append("unobs 0 %d %s" % (rng.choice([a, b]), es))
+            elif x < 0.35 and c09:
+                g.ops.append("obs 0 %d %s" % (rng.choice([a, b]), es))
+            else:
+                g.ops.append(g.mutation())
+    elif r < 0.7:
+        # a container slot / Instance value replaced by an equal object
+        root = rng.choice(others)
+        kind = rng.choice(["d", "d", "l", "i", "n", "c"])
+        n1, n2 = rng.random() < 0.7, rng.random() < 0.8
+        if kind == "d":
+            c = g.fresh(); g.conts[c] = "d"; g.attached[(root, "byname")] = c
+            g.ops.append("setd %d byname %d [0:%d]" % (root, c, a))
+            e = seq(t("byname", n1), ("di", n2, False), rng.choice([t("value"), seq(t("child"), t("value"))]))
+            repl = ["ds %d 0 %d" % (c, b), "ds %d 0 %d" % (c, a)]
+        elif kind == "l":
+            c = g.fresh(); g.conts[c] = "l"; g.attached[(root, "kids")] = c
+            g.ops.append("setl %d kids %d [%d]" % (root, c, a))
+            e = seq(t("kids", n1), ("li", n2, False), t("value"))
+            c2 = g.fresh(); g.conts[c2] = "l"
+            repl = ["ls %d 0 %d" % (c, b), "setl %d kids %d [%d]" % (root, c2, b)]
+        else:
+            f = {"i": "ichild", "n": "nchild", "c": "child"}[kind]
+            g.ops.append("set %d %s %d" % (root, f, a))
+            e = seq(t(f, n1), rng.choice([t("value"), ("any", True)]))
+            repl = ["set %d %s %d" % (root, f, b), "set %d %s %d" % (root, f, a), "set %d %s %d" % (root, f, a)]
+        g.ops.append("obs 0 %d %s" % (root, " ".join(rpn_of(e))))
+        for o in repl:
+            if rng.random() < 0.85:
+                g.ops.append(o)
+            if rng.random() < 0.4:
+                g.ops.append(g.mutation())
+    else:
+        g.setup(rng.randint(1, 3))
+        e = expr_without_sets(rng)
+        g.ops.append("obs %d %d %s" % (rng.randrange(2), rng.choice(members + [0]), " ".join(rpn_of(e))))
+        if rng.random() < 0.5:
+            g.ops.append("obs 0 %d %s" % (rng.choice(members), " ".join(rpn_of(e))))
+        while len(g.ops) < rng.randint(4, maxops):
+            g.ops.append(g.mutation())
+    return "obs|%d|%s|" % (g.n, ",".join(hdr)) + ";".join(g.ops[:maxops + 2])
 
 
 def history_c08(rng, maxops=12):
